@@ -154,6 +154,18 @@ def status_name(r):
 
 
 # ---------------------------------------------------------------- implementation runs
+HANGS = [0]
+
+
+def _limit():
+    """5 s per call; once 3 calls have hung, 0.5 s (a hanging implementation must not stall the whole check)"""
+    return 5 if HANGS[0] < 3 else 0.5
+
+
+def _seen_hang():
+    HANGS[0] += 1
+
+
 def _bf_call(start, edges, n, target):
     from solvor.bellman_ford import bellman_ford
 
@@ -183,11 +195,12 @@ def _dijkstra_call(start, target, edges):
 
 
 def run_bf(start, edges, n, target):
-    res = guarded(_bf_call, start, [tuple(e) for e in edges], n, target, timeout=5)
+    res = guarded(_bf_call, start, [tuple(e) for e in edges], n, target, timeout=_limit())
     if res[0] == "ok":
         return res[1]
     if res[0] == "exc":
         return ("Error", res[1], res[2]) if res[1] == "ValueError" else ("Exc", res[1], res[2])
+    _seen_hang()
     return ("Hang",)
 
 
@@ -202,11 +215,12 @@ def _fw_call(n, edges, directed):
 
 
 def run_fw(n, edges, directed):
-    res = guarded(_fw_call, n, [tuple(e) for e in edges], directed, timeout=5)
+    res = guarded(_fw_call, n, [tuple(e) for e in edges], directed, timeout=_limit())
     if res[0] == "ok":
         return res[1]
     if res[0] == "exc":
         return ("Error", res[1], res[2]) if res[1] == "ValueError" else ("Exc", res[1], res[2])
+    _seen_hang()
     return ("Hang",)
 
 
@@ -242,11 +256,12 @@ def _search_call(which, adj, start, goal, max_iter):
 
 
 def run_search(which, adj, start, goal, max_iter):
-    res = guarded(_search_call, which, adj, start, goal, max_iter, timeout=5)
+    res = guarded(_search_call, which, adj, start, goal, max_iter, timeout=_limit())
     if res[0] == "ok":
         return res[1]
     if res[0] == "exc":
         return ("Exc", res[1], res[2])
+    _seen_hang()
     return ("Hang",)
 
 
@@ -656,7 +671,7 @@ def judge_graph(n, edges, directed_too=True):
         # agreement with dijkstra (part B's solver) on non-negative graphs: same distance / same INFEASIBLE
         if nonneg:
             for t in range(n):
-                dj = guarded(_dijkstra_call, s, t, edges, timeout=5)
+                dj = guarded(_dijkstra_call, s, t, edges, timeout=_limit())
                 o = outs[t]
                 same = dj[0] == "ok" and ((dj[1][0] == "INFEASIBLE" and o[0] == "Infeasible") or
                                           (dj[1][0] == "OPTIMAL" and o[0] == "Path" and dj[1][1] == o[2]))
@@ -698,7 +713,9 @@ def judge_edges_variants(n, edges, source, target):
     adj = [(u, [v for (a, v) in pairs if a == u]) for u in range(n)]
     goal = ("none",) if target is None else ("val", target)
     for which in ("bfs", "dfs"):
-        res = guarded(_edges_call, which, n, pairs, source, target, timeout=5)
+        res = guarded(_edges_call, which, n, pairs, source, target, timeout=_limit())
+        if res[0] == "hang":
+            _seen_hang()
         o = res[1] if res[0] == "ok" else ("Exc",) + tuple(res[1:]) if res[0] == "exc" else ("Hang",)
         base = run_search(which, adj, source, goal, 1_000_000)
         rep = {"kind": "edges", "which": which, "n": n, "edges": pairs, "source": source, "target": target, "impl": o}
@@ -722,9 +739,12 @@ def judge_edges_variants(n, edges, source, target):
 
 # ---------------------------------------------------------------- shrinking
 def shrink_edges(n, edges, still_bad):
+    import time
+
     edges = list(edges)
     changed = True
-    while changed:
+    t0 = time.time()
+    while changed and time.time() - t0 < 20:
         changed = False
         for i in range(len(edges)):
             cand = edges[:i] + edges[i + 1:]
@@ -805,10 +825,11 @@ def run(ctx: Ctx):
         ctx.count("graph_n", n)
         ctx.count("graph_kind", kind)
         for what, rep in problems[:1]:
-            small = shrink_edges(n, edges, _graph_bad)
-            _, p2, _ = judge_graph(n, small)
-            what2, rep2 = (p2[0] if p2 else (what, rep))
-            ctx.violation(what2, rep2)
+            if len(ctx.violations) < 3:  # minimise the first few, report the rest as found
+                small = shrink_edges(n, edges, _graph_bad)
+                _, p2, _ = judge_graph(n, small)
+                what, rep = (p2[0] if p2 else (what, rep))
+            ctx.violation(what, rep)
         for (gn, ge, directed, out) in recs["fw"]:
             ctx.evaluations += 1
             ctx.count("fw_status" + ("" if directed else "_undirected"), out[0])
